@@ -64,10 +64,14 @@ class Matcher:
 
     def match(self, s, start=0, full=False):
         """s: list of char codes (int | SInt). Anchored at `start` like re.match; full: the match must end at the end (fullmatch)."""
-        for end, groups in self._seq(list(self.tree), start, s, {}):
-            if full and end != len(s):
-                continue
-            return end, groups
+        try:
+            for end, groups in self._seq(list(self.tree), start, s, {}):
+                if full and end != len(s):
+                    continue
+                return end, groups
+        except RecursionError:
+            from .core import EngineLimit
+            raise EngineLimit("regex interpreter: recursion depth exceeded on a long symbolic subject") from None
         return None
 
     def _seq(self, nodes, pos, s, groups):
@@ -187,25 +191,40 @@ class SymPattern:
     def __getattr__(self, name):
         return getattr(self.real, name)
 
-    def match(self, s, *a):
+    def _plain(self, s):
+        """a proxy sequence without any symbolic element is handed to the real engine as the str/bytes it stands for"""
         if isinstance(s, (str, bytes)):
-            return self.real.match(s, *a)
+            return s
+        d = getattr(s, "_d", None)
+        if d is not None and all(type(x) is int for x in d):
+            try:
+                return bytes(d) if isinstance(self.real.pattern, bytes) else "".join(map(chr, d))
+            except ValueError:
+                return None
+        return None
+
+    def match(self, s, *a):
+        p = self._plain(s)
+        if p is not None:
+            return self.real.match(p, *a)
         r = self.m.match(list(s._d), *(a[:1]))
         if r is None:
             return None
         return SymMatch(self.m, s, r[0], r[1], a[0] if a else 0)
 
     def fullmatch(self, s, *a):
-        if isinstance(s, (str, bytes)):
-            return self.real.fullmatch(s, *a)
+        p = self._plain(s)
+        if p is not None:
+            return self.real.fullmatch(p, *a)
         r = self.m.match(list(s._d), *(a[:1]), full=True)
         if r is None:
             return None
         return SymMatch(self.m, s, r[0], r[1], a[0] if a else 0)
 
     def search(self, s, *a):
-        if isinstance(s, (str, bytes)):
-            return self.real.search(s, *a)
+        p = self._plain(s)
+        if p is not None:
+            return self.real.search(p, *a)
         d = list(s._d)
         for st in range(a[0] if a else 0, len(d) + 1):
             r = self.m.match(d, st)
@@ -214,8 +233,9 @@ class SymPattern:
         return None
 
     def findall(self, s, *a):
-        if isinstance(s, (str, bytes)):
-            return self.real.findall(s, *a)
+        p = self._plain(s)
+        if p is not None:
+            return self.real.findall(p, *a)
         raise EngineLimit("re.findall on a symbolic string")
 
     finditer = sub = subn = split = findall
